@@ -31,6 +31,18 @@ CHECKS.update({
                 text='Each reference-log object image is decoded with ALL bytes after the base header symbolic at once, '
                      'constrained to the decode path (shape) of the original; z3 decides that re-encoding reproduces every byte.',
                 note='quick: one image per type; thorough: all 512; padding bytes kept concrete'),
+    'C04': dict(cat='model_checking', ref='§C04',
+                text='Whole write sessions of the real File run symbolically (cooperative threads, stub fstream/zlib); the finished file is '
+                     'walked by an independent decoder in the harness and compared with the objects\' encodings for all field values.',
+                note='zlib by contract model; 3 quick / 10 thorough configurations; 4 objects; one schedule'),
+    'C05': dict(cat='model_checking', ref='§C05',
+                text='Header bytes after close() compared with an independent container walk and with the reader\'s running counters, '
+                     'caller-supplied header fields symbolic.',
+                note='as C04'),
+    'C06': dict(cat='model_checking', ref='§C06',
+                text='Circular-wait freedom decided by z3 on the real wait predicates from an arbitrary symbolic stream/queue state '
+                     '(unbounded sizes), abort releases all waiters; whole sessions incl. early close run with deadlock detection.',
+                note='monitor reduction (C11 premise); sessions explore one cooperative schedule; read-session finding F1 recorded'),
     'C10': dict(cat='model_checking', ref='§C10',
                 text='Every decoder runs on symbolic bytes with bounds/lifetime-checked memory; the whole three-thread read '
                      'pipeline runs on a file with a symbolic object header and must terminate (deadlock and step-budget detection).',
